@@ -10,6 +10,7 @@ inductive Event
   | append (a : AEReq) (failAt crashAt : Option Nat)
   | install (q : ISReq) (failAt crashAt : Option Nat)
   | timeoutNow
+  | snapshot (failAt crashAt : Option Nat)   -- takeSnapshot on the snapshot goroutine
   | restart
   | damagedRestart          -- the newest readable snapshot is damaged, then the process restarts
   | setRole (r : Role) (leader leaderId : Nat)
@@ -20,7 +21,20 @@ structure World where
   d : Durable
   v : Vol
   dead : Bool
+  fpos : Nat × Nat       -- the FSM goroutine's own (lastIndex, lastTerm)
+  fdata : List Nat       -- the FSM's content
 deriving Repr
+
+/-- FSM position and content of a process just started on `d` (the start-up restore bypasses the
+    FSM goroutine, whose position starts at 0 and moves only with what it is handed afterwards) -/
+def fsmFresh (d : Durable) (v : Vol) (calls : List FsmCall) : (Nat × Nat) × List Nat :=
+  (fsmAdvance d.log (v.applied - v.snapIdx) (v.snapIdx + 1) (0, 0), fsmDataAfter [] calls)
+
+/-- FSM position and content after a handler's result -/
+def fsmNext (w : World) (d' : Durable) (vol : Vol) (calls : List FsmCall) : (Nat × Nat) × List Nat :=
+  let data := fsmDataAfter w.fdata calls
+  if calls.any (fun c => match c with | .restore _ => true | _ => false) then ((vol.snapIdx, vol.snapTerm), data)
+  else (fsmAdvance d'.log (vol.applied - w.v.applied) (w.v.applied + 1) w.fpos, data)
 
 /-- what is observable after one event -/
 structure Obs where
@@ -38,8 +52,10 @@ def deadObs (d : Durable) : Obs := ⟨true, false, .none, [], emptyVol, d, []⟩
 /-- start a process on a durable image (`NewRaft`; it re-persists the term it read) -/
 def boot (cf : Cfg) (d : Durable) : World × Obs :=
   match restart cf d with
-  | none => (⟨cf, d, emptyVol, true⟩, deadObs d)
-  | some (v, calls) => (⟨cf, d, v, false⟩, ⟨false, false, .none, [.setTerm d.curTerm], v, d, calls⟩)
+  | none => (⟨cf, d, emptyVol, true, (0, 0), []⟩, deadObs d)
+  | some (v, calls) =>
+    (⟨cf, d, v, false, (fsmFresh d v calls).1, (fsmFresh d v calls).2⟩,
+     ⟨false, false, .none, [.setTerm d.curTerm], v, d, calls⟩)
 
 def planOf (w : World) : Event → Option (Plan × Option Nat × Option Nat)
   | .vote q f c => some (votePlan w.d w.v q, f, c)
@@ -47,6 +63,7 @@ def planOf (w : World) : Event → Option (Plan × Option Nat × Option Nat)
   | .append a f c => some (aePlan w.cf w.d w.v a, f, c)
   | .install q f c => some (isPlan w.cf w.d w.v q, f, c)
   | .timeoutNow => some (timeoutNowPlan w.v, none, none)
+  | .snapshot f c => some (snapPlan w.cf w.d w.v w.fpos w.fdata, f, c)
   | .restart => none
   | .damagedRestart => none
   | .setRole _ _ _ => none
@@ -58,9 +75,11 @@ def stepPlan (w : World) (p : Plan) (f c : Option Nat) : World × Obs :=
   let d' := applyAll w.d r.2
   if r.1.panic then
     match restart w.cf d' with
-    | none => (⟨w.cf, d', emptyVol, true⟩, deadObs d')
-    | some (v, calls) => (⟨w.cf, d', v, false⟩, ⟨false, true, .none, r.2, v, d', calls⟩)
-  else (⟨w.cf, d', r.1.vol, false⟩, ⟨false, false, r.1.resp, r.2, r.1.vol, d', r.1.fsm⟩)
+    | none => (⟨w.cf, d', emptyVol, true, (0, 0), []⟩, deadObs d')
+    | some (v, calls) =>
+      (⟨w.cf, d', v, false, (fsmFresh d' v calls).1, (fsmFresh d' v calls).2⟩, ⟨false, true, .none, r.2, v, d', calls⟩)
+  else (⟨w.cf, d', r.1.vol, false, (fsmNext w d' r.1.vol r.1.fsm).1, (fsmNext w d' r.1.vol r.1.fsm).2⟩,
+        ⟨false, false, r.1.resp, r.2, r.1.vol, d', r.1.fsm⟩)
 
 def stepEvent (w : World) (e : Event) : World × Obs :=
   if w.dead then (w, deadObs w.d) else
